@@ -7,7 +7,7 @@
     universally quantified functions; their encoders only have to satisfy the round-trip hypotheses
     written in each statement (instantiated at the end of the file). *)
 From Coq Require Import List ZArith String Lia.
-From Thunder Require Import Lib.Json Args.Model Args.Spec Args.Proofs Args.ProofsReject Args.ProofsInst Args.ProofsSubst Gen.ArgParsers Args.Table.
+From Thunder Require Import Lib.Json Args.Model Args.Spec Args.Proofs Args.ProofsReject Args.ProofsInst Args.ProofsSubst Args.ProofsTotal Gen.ArgParsers Args.Table.
 Import ListNotations.
 Local Open Scope Z_scope.
 
@@ -127,6 +127,20 @@ Theorem kind_mismatch_rejected :
   forall b64 tdec xdec (t : ty) (j : jv), mismatch t j = true -> parse b64 tdec xdec t j = Err EArgs.
 Proof. exact ProofsReject.mismatch_rejected. Qed.
 Print Assumptions kind_mismatch_rejected.
+
+(** Conversely nothing else is refused: the argument parsers fail exactly on [rejects] - a kind mismatch
+    at some position, a string its decoder refuses (base64, RFC 3339, UnmarshalText) or a name the enum
+    does not have - and accept every other input (numbers of any magnitude included: they are converted
+    as [conv] says, which is why the transport theorems carry range hypotheses). *)
+Theorem rejected_exactly_when :
+  forall b64 tdec xdec t j, parse b64 tdec xdec t j = Err EArgs <-> rejects b64 tdec xdec t j = true.
+Proof. exact ProofsTotal.rejected_iff. Qed.
+Print Assumptions rejected_exactly_when.
+
+Theorem accepted_exactly_when :
+  forall b64 tdec xdec t j, (exists v, parse b64 tdec xdec t j = Ok v) <-> rejects b64 tdec xdec t j = false.
+Proof. exact ProofsTotal.accepted_iff. Qed.
+Print Assumptions accepted_exactly_when.
 
 Theorem missing_required_rejected :
   forall b64 tdec xdec fs o n t',
